@@ -166,6 +166,21 @@ CHECKS = {
                    "proved (partial: the loop is the model's handle list), it is validated by the "
                    "acceptor on every case.",
         design_ref="DESIGN.md section 6/C04"),
+    'C18': dict(
+        text="Theorem (Props/C18.v): every step list the model accepts - any arrival pattern, interval "
+             "and count - satisfies the monitor that reads observed steps only: each copy carries the "
+             "latest matching event, copies of one event are numbered 1,2,3,... exactly `interval` "
+             "apart from the event, never more than count, none missing when due, other event types "
+             "are ignored and not forwarded, nothing after the stop; plus the step lemmas. Tie: "
+             "explicit, implicit (Event(..., repeat=)) and chained Repeat blocks on the virtual clock, "
+             "arrivals before/at/after repetitions, per block what it received and what its "
+             "destination received in the exact interleaving, output, data items.",
+        technique="Coq proof (simulation relation between the block's state and the observation-level "
+                  "monitor, induction over step lists) + trace acceptance evaluated by vm_compute",
+        level_note="Trusted: Coq kernel/vm_compute, hand-written model tied by this run's "
+                   "correspondence; partial: asyncio.wait_for/Queue are not modelled - a timeout is "
+                   "taken to be due exactly `interval` after the wait began, validated on every case.",
+        design_ref="DESIGN.md section 6/C18"),
 }
 
 NOT_YET = "check not built yet in this round (planned: Coq model + theorems + correspondence, see DESIGN.md section 6)"
